@@ -7,6 +7,63 @@ use crate::{SourceSpan, tokenizer};
 
 const DISPLAY_INDENT: &str = "    ";
 
+thread_local! {
+    /// Non-zero while text is being written that must reach the output byte for byte even
+    /// where it spans lines: the inside of a word (a quoted string or a substitution with
+    /// embedded newlines) and the body and closing tag of a here-document.
+    static VERBATIM_DEPTH: std::cell::Cell<u32> = const { std::cell::Cell::new(0) };
+}
+
+thread_local! {
+    /// Bodies (with closing tags) of the here-documents whose redirections have been written
+    /// on the current line and which have to follow it.
+    static PENDING_HERE_DOCS: std::cell::RefCell<Vec<String>> = const { std::cell::RefCell::new(Vec::new()) };
+}
+
+/// Runs `write` with verbatim mode on: lines that *begin* during it are not indented.
+fn verbatim<R>(write: impl FnOnce() -> R) -> R {
+    VERBATIM_DEPTH.with(|d| d.set(d.get() + 1));
+    let result = write();
+    VERBATIM_DEPTH.with(|d| d.set(d.get() - 1));
+    result
+}
+
+/// Indents the structural lines written through it; unlike a plain indenting writer it
+/// leaves alone the lines that begin inside verbatim text (see [`verbatim`]).
+struct StructuralIndent<'a, 'b> {
+    inner: &'a mut std::fmt::Formatter<'b>,
+    at_line_start: bool,
+}
+
+fn indented<'a, 'b>(f: &'a mut std::fmt::Formatter<'b>) -> StructuralIndent<'a, 'b> {
+    StructuralIndent {
+        inner: f,
+        at_line_start: true,
+    }
+}
+
+impl std::fmt::Write for StructuralIndent<'_, '_> {
+    fn write_str(&mut self, s: &str) -> std::fmt::Result {
+        for (i, line) in s.split('\n').enumerate() {
+            if i > 0 {
+                self.inner.write_str("\n")?;
+                self.at_line_start = true;
+            }
+
+            if !line.is_empty() {
+                if self.at_line_start && VERBATIM_DEPTH.with(std::cell::Cell::get) == 0 {
+                    self.inner.write_str(DISPLAY_INDENT)?;
+                }
+
+                self.at_line_start = false;
+                self.inner.write_str(line)?;
+            }
+        }
+
+        Ok(())
+    }
+}
+
 /// Trait implemented by all AST nodes. Used to aggregate traits expected
 /// to be implemented.
 pub trait Node: Display + SourceLocation {}
@@ -681,7 +738,7 @@ impl Display for CaseClauseCommand {
     fn fmt(&self, f: &mut std::fmt::Formatter<'_>) -> std::fmt::Result {
         write!(f, "case {} in", self.value)?;
         for case in &self.cases {
-            write!(indenter::indented(f).with_str(DISPLAY_INDENT), "{case}")?;
+            write!(indented(f), "{case}")?;
         }
         writeln!(f)?;
         write!(f, "esac")
@@ -715,13 +772,33 @@ impl SourceLocation for CompoundList {
 
 impl Display for CompoundList {
     fn fmt(&self, f: &mut std::fmt::Formatter<'_>) -> std::fmt::Result {
+        let mut line_already_ended = false;
         for (i, item) in self.0.iter().enumerate() {
-            if i > 0 {
+            if i > 0 && !line_already_ended {
                 writeln!(f)?;
             }
 
             // Write the and-or list.
             write!(f, "{}", item.0)?;
+
+            // Here-documents opened on this line: their bodies come right after it, and the
+            // newline that ends the last of them also ends the command.
+            let here_docs = PENDING_HERE_DOCS.with(|p| std::mem::take(&mut *p.borrow_mut()));
+            if !here_docs.is_empty() {
+                if !matches!(item.1, SeparatorOperator::Sequence) {
+                    write!(f, " {}", item.1)?;
+                }
+                verbatim(|| {
+                    writeln!(f)?;
+                    for here_doc in &here_docs {
+                        write!(f, "{here_doc}")?;
+                    }
+                    Ok(())
+                })?;
+                line_already_ended = true;
+                continue;
+            }
+            line_already_ended = false;
 
             // Write the separator... unless we're on the list item and it's a ';'.
             if i == self.0.len() - 1 && matches!(item.1, SeparatorOperator::Sequence) {
@@ -795,7 +872,7 @@ impl Display for IfClauseCommand {
     fn fmt(&self, f: &mut std::fmt::Formatter<'_>) -> std::fmt::Result {
         writeln!(f, "if {}; then", self.condition)?;
         write!(
-            indenter::indented(f).with_str(DISPLAY_INDENT),
+            indented(f),
             "{}",
             self.then
         )?;
@@ -840,7 +917,7 @@ impl Display for ElseClause {
         }
 
         write!(
-            indenter::indented(f).with_str(DISPLAY_INDENT),
+            indented(f),
             "{}",
             self.body
         )
@@ -925,7 +1002,7 @@ impl Display for CaseItem {
         writeln!(f, ")")?;
 
         if let Some(cmd) = &self.cmd {
-            write!(indenter::indented(f).with_str(DISPLAY_INDENT), "{cmd}")?;
+            write!(indented(f), "{cmd}")?;
         }
         writeln!(f)?;
         write!(f, "{}", self.post_action)
@@ -1087,7 +1164,7 @@ impl Display for BraceGroupCommand {
     fn fmt(&self, f: &mut std::fmt::Formatter<'_>) -> std::fmt::Result {
         writeln!(f, "{{ ")?;
         write!(
-            indenter::indented(f).with_str(DISPLAY_INDENT),
+            indented(f),
             "{}",
             self.list
         )?;
@@ -1116,7 +1193,7 @@ impl Display for DoGroupCommand {
     fn fmt(&self, f: &mut std::fmt::Formatter<'_>) -> std::fmt::Result {
         writeln!(f, "do")?;
         write!(
-            indenter::indented(f).with_str(DISPLAY_INDENT),
+            indented(f),
             "{}",
             self.list
         )?;
@@ -1680,9 +1757,15 @@ impl Display for IoHereDocument {
             write!(f, "-")?;
         }
 
-        writeln!(f, "{}", self.here_end)?;
-        write!(f, "{}", self.doc)?;
-        writeln!(f, "{}", self.here_end)?;
+        write!(f, "{}", self.here_end)?;
+
+        // The body follows the line that carries the redirection, after whatever else that
+        // line holds; it is handed to the enclosing list, which writes it (verbatim) when the
+        // line is complete. The closing tag is the delimiter without its quoting.
+        let mut doc = self.doc.value.clone();
+        doc.push_str(crate::tokenizer::unquote_str(&self.here_end.value).as_str());
+        doc.push('\n');
+        PENDING_HERE_DOCS.with(|p| p.borrow_mut().push(doc));
 
         Ok(())
     }
@@ -1996,7 +2079,18 @@ impl SourceLocation for Word {
 
 impl Display for Word {
     fn fmt(&self, f: &mut std::fmt::Formatter<'_>) -> std::fmt::Result {
-        write!(f, "{}", self.value)
+        // A word that spans lines (a quoted string, a substitution) keeps its later lines
+        // exactly as they are; only its first line takes part in the layout.
+        match self.value.split_once('\n') {
+            None => f.write_str(&self.value),
+            Some((first_line, rest)) => {
+                f.write_str(first_line)?;
+                verbatim(|| {
+                    f.write_str("\n")?;
+                    f.write_str(rest)
+                })
+            }
+        }
     }
 }
 
